@@ -137,7 +137,8 @@ TRUSTED_BASE = [
     "hand-written Gallina model coq/Model/*.v of slinky/src/*.rs and slinky-cli/src/main.rs; tied to /repo "
     "by tools/rs2v.py (literal tables regenerated into Model/Generated.v on every run) and by the differential "
     "correspondence check (extracted model vs the real library through harness/)",
-    "extraction: ExtrOcamlBasic only; OCaml 4.13.1 ocamlopt; driver/main.ml conversions",
+    "extraction: ExtrOcamlBasic + ExtrOcamlString (ascii -> char, string -> char list; positive/N/Z/nat stay inductive; no other Extract Constant), OCaml 4.13.1 ocamlopt, driver/main.ml conversions; a slice of every run is re-evaluated by vm_compute inside coqc",
+    "vlib/run.py os_oracle: which of the model's (path, text) writes the operating system performs (file exports)",
     "vlib/*.py: generator, YAML(JSON) rendering of serial documents, script reader, comparison",
     "serde/serde_yaml deserialisation, std::path, HashMap/IndexSet semantics: modelled, validated by the tie",
 ]
